@@ -9,6 +9,16 @@ pub use deserialize_env::DeserializeEnv;
 pub use relational_rule::Relation;
 pub use stop_by::StopBy;
 
+#[cfg(feature = "verif-hooks")]
+#[doc(hidden)]
+pub use nth_child::{verif_hooks as nth_child_hooks, NthChildSimple, SerializableNthChild as HookNthChild};
+#[cfg(feature = "verif-hooks")]
+#[doc(hidden)]
+pub use range::SerializableRange as HookRange;
+#[cfg(feature = "verif-hooks")]
+#[doc(hidden)]
+pub use stop_by::SerializableStopBy;
+
 use crate::maybe::Maybe;
 use nth_child::{NthChild, NthChildError, SerializableNthChild};
 use range::{RangeMatcher, RangeMatcherError, SerializableRange};
@@ -25,6 +35,9 @@ use bit_set::BitSet;
 use schemars::JsonSchema;
 use serde::{Deserialize, Serialize};
 use std::borrow::Cow;
+#[cfg(feature = "verif-hooks")]
+use crate::verif_hooks::VecSet as HashSet;
+#[cfg(not(feature = "verif-hooks"))]
 use std::collections::HashSet;
 use thiserror::Error;
 
